@@ -212,6 +212,18 @@ def unit_mh_sample():
         hx = head["x"]
         out.append(("one_normal_draw_per_step_of_the_shape_and_dtype_of_the_state",
                     len(draws) == 1 and tuple(draws[0]["shape"]) == tuple(hx._shape) and draws[0]["dtype"] is hx.dtype))
+        # the proposal is  state + step_size * noise  (any order of the commutative operations)
+        okp = False
+        if len(draws) == 1 and isinstance(xn, st.Tensor):
+            nz, stp = draws[0]["tensor"], last_state["step"]
+            with st.no_grad():
+                forms = [hx + stp * nz, hx + nz * stp, stp * nz + hx, nz * stp + hx]
+            okp = any(f.kind == xn.kind and st._opq_key(f) == st._opq_key(xn) for f in forms)
+            if not okp:
+                # not one of the recognised spellings of the same expression: outside what this engine can decide (the
+                # concrete oracles run instead); never an alarm
+                raise core.OutOfSubset("the Metropolis proposal is spelled in a form the engine does not recognise")
+        out.append(("proposal_is_state_plus_step_size_times_the_noise", okp))
         lpn, lpx = env.get("logpnext"), head["logpx"]
         u = last_state.get("u")
         if isinstance(lpn, st.Tensor) and lpn.kind == "sc" and isinstance(lpx, st.Tensor) and lpx.kind == "sc" and u is not None:
@@ -244,17 +256,18 @@ def unit_mh_sample():
 
         def randn_(*shape, dtype=None, device=None, **kw):
             r = o_randn(*shape, dtype=dtype, device=device)
-            c.calls.append(("normal_draw", dict(shape=tuple(r._shape), dtype=r.dtype)))
+            c.calls.append(("normal_draw", dict(shape=tuple(r._shape), dtype=r.dtype, tensor=r)))
             return r
 
         def randn_like_(a, **kw):
             r = o_randn_like(a)
-            c.calls.append(("normal_draw", dict(shape=tuple(r._shape), dtype=r.dtype)))
+            c.calls.append(("normal_draw", dict(shape=tuple(r._shape), dtype=r.dtype, tensor=r)))
             return r
         with kit.patched(torch, "empty", lambda shape, dtype=None, device=None: RowLog(shape, dtype, device)), \
                 kit.patched(torch, "log", lambda t: t, ), kit.patched(torch, "rand", lambda shape, dtype=None, device=None: useq), \
                 kit.patched(torch, "randn", randn_), kit.patched(torch, "randn_like", randn_like_):
-            out = rw.fn(logp, x0, (pp,), n, fresh_real("step_size"), collect)
+            last_state["step"] = fresh_real("step_size")
+            out = rw.fn(logp, x0, (pp,), n, last_state["step"], collect)
         if collect:
             c.check("buffer_has_n_rows", out.shape[0] == n and out.shape[1:] == x0.shape)
         else:
